@@ -75,7 +75,7 @@ pub fn field_values(th: bool) -> Vec<Option<MVal>> {
     ] {
         v.push(Some(MVal::Float(f)));
     }
-    for t in ["1", " 1", "1.0", "1.5", "1e3", "nan", "inf", "x", "", "-1", "2", "9223372036854775807", "9223372036854775808", "+1", "0x1"] {
+    for t in ["1", " 1", "1.0", "1.5", "1e3", "nan", "inf", "x", "", "-1", "2", "9223372036854775807", "9223372036854775808", "+1", "0x1", "-9223372036854775808", "-9223372036854775809", "-0", "007", "1_0", "1 ", "١"] {
         v.push(Some(s(t)));
     }
     v.push(Some(MVal::Bool(true)));
